@@ -10,32 +10,92 @@ from harness.props import state_toy as T
 META = dict(
     technique="Coq theorems (invariant of the cache + undo log, preserved by every State operation; induction over the history) "
               "on a line-by-line model of state.py; the model's executable step function is run inside Coq (vm_compute) on the "
-              "same operation histories as the real State and compared result by result; from-scratch oracle on the implementation",
+              "same operation histories as the real State and compared result by result; from-scratch oracle on the implementation; "
+              "the fork rule of State.__setitem__ and the combination rule of State.revert(subset) are recognised on every run (source "
+              "shape + probes on a real State, fail closed) and select the executable instance of the tie",
     level_text="For every value type, every well-formed graph, every history of get/set/put/revert/partial revert/clone/mode "
                "switch/precompute/clear on any number of states: a successful read is the from-scratch evaluation of the current "
                "independent values, a read fails (input error) iff that evaluation needs an unset independent value, reads are "
-               "transparent, states do not interfere. Proved for the code as it is under one extra clause (no un-forked assignment "
-               "while a fork is pending: finding F1, refuted with a witness) and without it for the code with the one-line repair.",
+               "transparent, states do not interfere. Proved in full for the code as it is (since 27ac519 an assignment made with "
+               "auto-fork off drops the pending fork): the only hypothesis on a history is the documented precondition of "
+               "per-individual reverts, and none at all for histories of full reverts.",
     level_note="Trusted: Coq kernel (no axioms: all theorems closed under the global context); the hand-written model's tie is the "
                "executed correspondence (toy graphs built as real LinkedVariables), not a translation; graph well-formedness is a "
                "hypothesis (C15) checked by vm_compute on every graph used; F_mix (row-wise node functions) is a hypothesis for "
-               "partial reverts; torch kernels, deepcopy, REF-mode aliasing under in-place mutation are outside the model.",
+               "partial reverts (proved for one-parent entry-wise nodes under torch.where by C02_F_mix_entrywise; exercised incl. +-inf/NaN "
+               "by the tie and the oracle); torch kernels, deepcopy, REF-mode aliasing under in-place mutation are outside the model. "
+               "Former finding F1 (fork-mode-switch-stale-revert) is fixed by 27ac519 and the blend of partial reverts (F2 of C02) by "
+               "fe0cadd; a tree whose __setitem__ keeps the fork on an un-forked assignment, or whose revert(subset) blends, is reported "
+               "as a violation with the stale-read history as replay.",
     design_ref="DESIGN.md section 4 C01, section 6 F1",
 )
 
 OBLIGATIONS = [
-    "C01_never_stale", "C01_never_stale_partial", "C01_never_stale_repaired", "C01_fork_mode_switch_refuted",
-    "C01_unset_is_error", "C01_read_is_scratch", "C01_get_transparent", "C01_clone_isolated", "C01_clone_copies", "C01_examples",
+    "C01_never_stale", "C01_never_stale_full_reverts", "C01_unset_is_error", "C01_read_is_scratch", "C01_unforked_set_drops_fork",
+    "C01_get_transparent", "C01_clone_isolated", "C01_clone_copies", "C01_examples",
 ]
 
-# False = the model of the code as it is.  Flip to True once the repair of F1 (fixes/fork-mode-switch-stale-revert.diff) is in.
-FX = False
+# The model variant the theorems of Props/C01.v are about (State/StateNow.v): True = State.__setitem__ as it is since 27ac519
+# (an assignment made while auto_fork_type is None forgets _last_fork).
+CLAIMED_FX = True
+# The variant the tree under test really has; set by `settle_variant` from T.detect_setitem_variant() on every run.  The tie and
+# the discipline flags are computed for THIS variant, so that a tree that has lost the repair is reported through the stale
+# read it produces (signature F1_SIG, a violation) and not as a flood of model-vs-code mismatches.
+FX = CLAIMED_FX
+# Same for the rule of the per-individual revert: "where" = torch.where(mask, old, cur) (since fe0cadd; Coq instance xsem_where),
+# "blend" = old*mask + cur*~mask (before; xsem).  The theorems are generic in the rule (hypothesis F_mix); the executable instance
+# of the tie is the one the tree under test has, and a tree that blends is reported through the stale NaN it produces.
+CLAIMED_MIX = "where"
+MIX = CLAIMED_MIX
+SEM = {"where": "xsem_where", "blend": "xsem"}
+F2_SIG = "partial-revert-nonfinite-stale"
+
+
+def checker():
+    return f"(check_case_with {SEM[MIX]} {'true' if FX else 'false'})"
 
 HEADER = ("From Coq Require Import ZArith List Bool.\nFrom Leaspy Require Import State.StateModel State.StateExec.\n"
           "Import ListNotations.\nOpen Scope Z_scope.\nOpen Scope nat_scope.\n")
 CASE_TYPE = "list nspec * list (xop * out xval * bool)"
 
 F1_SIG = "fork-mode-switch-stale-revert"
+
+
+def settle_variant(run: Run):
+    """Recognise the fork rule of the tree under test (fail closed) and set FX."""
+    global FX
+    fx, detail = T.detect_setitem_variant()
+    run.extra["setitem_variant"] = detail
+    if fx is None:
+        FX = CLAIMED_FX
+        run.broken("translate:State.__setitem__", "the fork rule of State.__setitem__ was not recognised (source shape and probes on a real "
+                   f"State must agree): {json.dumps(detail, default=str)}", kind="broken-translation")
+    else:
+        FX = fx
+        if fx != CLAIMED_FX:
+            run.broken("tie:State.__setitem__", "State.__setitem__ of the tree under test keeps _last_fork when a value is assigned with "
+                       "auto_fork_type=None (the rule before 27ac519): the theorems of Props/C01.v are about the rule that drops it and "
+                       "do not speak about this code.  The tie of this run is made against the model variant fx=false so that the "
+                       "search reports the stale read itself.", kind="broken-correspondence")
+    global MIX
+    mix, mdetail = T.detect_revert_mix_variant()
+    run.extra["revert_mix_variant"] = mdetail
+    if mix is None:
+        MIX = CLAIMED_MIX
+        run.broken("translate:State.revert", "the rule combining forked and current values in State.revert(subset) was not recognised "
+                   f"(source shape and probes on a real State must agree): {json.dumps(mdetail, default=str)}", kind="broken-translation")
+    else:
+        MIX = mix
+        if mix != CLAIMED_MIX:
+            run.broken("tie:State.revert", "State.revert(subset) of the tree under test blends (old*mask + cur*~mask, the rule before fe0cadd): "
+                       "a non-finite value on the discarded side leaks into the kept one, F_mix does not hold for non-finite values and the "
+                       "examples of Props/C01.v (xsem_where) do not describe this code.  The tie of this run is made against xsem so that the "
+                       "search reports the stale read itself.", kind="broken-correspondence")
+    run.count("revert_mix_variant", {"where": "selects: torch.where(mask, old, cur) (since fe0cadd)",
+                                     "blend": "blends: old*mask + cur*~mask (before fe0cadd)", None: "not recognised"}[mix])
+    run.count("setitem_variant", {True: "drops the fork on an un-forked assignment (since 27ac519)",
+                                  False: "keeps the fork on an un-forked assignment (before 27ac519)", None: "not recognised"}[fx])
+    return fx, mix
 
 
 def classify(run: Run, G, sess, what_prefix=""):
@@ -46,19 +106,27 @@ def classify(run: Run, G, sess, what_prefix=""):
         if "mask" in taint:
             run.count("oracle", "stale-after-misused-partial-revert (precondition violated, not a failure)")
             continue
-        sig = F1_SIG if "unforked" in taint else "stale-read"
+        sig = F1_SIG if "unforked" in taint else F2_SIG if ("nonfinite-mask" in taint and MIX != CLAIMED_MIX) else "stale-read"
         prefix = ops[: mm["step"] + 1]
 
         def still(cand, _sig=sig):
             s2 = T.run_ops(G, cand, fx=FX)
-            return any(("unforked" in m["taint"]) == (_sig == F1_SIG) and "mask" not in m["taint"] for m in s2.mismatches)
+            return any(("unforked" in m["taint"]) == (_sig == F1_SIG) and ("nonfinite-mask" in m["taint"] or _sig != F2_SIG)
+                       and "mask" not in m["taint"] for m in s2.mismatches)
         small = T.shrink(G, prefix, still) if len(prefix) <= 60 else prefix
         s3 = T.run_ops(G, small, fx=FX)
         m3 = next((m for m in s3.mismatches if "mask" not in m["taint"]), mm)
+        # end the replay with the stale read itself (the oracle found it by reading every node after the last operation)
+        if small[-1] != ["get", m3["state"], m3["node"]]:
+            s4 = T.run_ops(G, small + [["get", m3["state"], m3["node"]]], fx=FX)
+            if any(m["step"] == len(small) and m["node"] == m3["node"] for m in s4.mismatches):
+                small = small + [["get", m3["state"], m3["node"]]]
         run.count("oracle", sig)
         run.fail(sig, what_prefix + (
             "a revert after an assignment made with auto_fork_type=None restores a stale _last_fork: a cached derived value no longer "
             "matches the independent values" if sig == F1_SIG else
+            "a per-individual revert applied while a cached value of the discarded side is inf/NaN leaves NaN in the kept rows of a cached "
+            "derived value (old*mask + cur*~mask is not a selection): the read differs from the from-scratch evaluation" if sig == F2_SIG else
             "a read returns a value different from the from-scratch evaluation on the current independent values"),
             dict(graph=G.to_json(), ops=small, node=m3["node"], state=m3["state"]),
             expected=m3["expected"], observed=m3["observed"])
@@ -66,8 +134,12 @@ def classify(run: Run, G, sess, what_prefix=""):
 
 def correspond(run: Run, name, sessions, metas):
     cases = [s.coq_case() for s in sessions]
-    bad = run.vm_bad_indices(name, HEADER, CASE_TYPE, cases, f"(check_case {'true' if FX else 'false'})", shard=150)
-    for i in bad or []:
+    bad = run.vm_bad_indices(name, HEADER, CASE_TYPE, cases, checker(), shard=150)
+    # localise the first disagreeing operation on the shortest disagreeing histories only (each bisection step is a coqc call)
+    todo = sorted(bad or [], key=lambda i: len(sessions[i].records))
+    if len(todo) > 6:
+        run.count("tie", f"{name}: disagreeing histories beyond the 6 shortest (not localised)", len(todo) - 6)
+    for i in todo[:6]:
         s = sessions[i]
         ops = [r[0] for r in s.records]
         # locate the first disagreeing operation by bisection on prefixes
@@ -76,7 +148,7 @@ def correspond(run: Run, name, sessions, metas):
 
         def prefix_bad(n):
             s2 = T.run_ops(G, ops[:n], fx=FX, oracle=False)
-            r = run.vm_bad_indices(name + "_loc", HEADER, CASE_TYPE, [s2.coq_case()], f"(check_case {'true' if FX else 'false'})")
+            r = run.vm_bad_indices(name + "_loc", HEADER, CASE_TYPE, [s2.coq_case()], checker())
             return bool(r)
         while lo < hi:
             mid = (lo + hi) // 2
@@ -92,19 +164,48 @@ def correspond(run: Run, name, sessions, metas):
     return bad
 
 
+def count_f1_shape(run: Run, s, acc):
+    """Histories of the shape of the former finding F1, measured on the real states: an assignment made with auto-fork off
+    while a fork is pending, then a revert on that state, then reads."""
+    kinds = {e["kind"] for e in s.f1_events}
+    if "unforked-set-over-pending-fork" in kinds:
+        acc["histories_with_unforked_assignment_over_pending_fork"] += 1
+    if "revert-after" in kinds:
+        acc["histories_with_revert_after_it"] += 1
+    if "read-after-revert" in kinds:
+        acc["histories_with_read_after_that_revert"] += 1
+    for e in s.f1_events:
+        if e["kind"] == "revert-after":
+            op = s.records[e["step"]][0][0]
+            out = e["out"]
+            key = f"{op} -> " + (out[0] if out[0] != "err" else "err:" + out[1])
+            acc["revert_outcomes"][key] = acc["revert_outcomes"].get(key, 0) + 1
+            run.count("revert_after_unforked_assignment_over_pending_fork", key)
+        elif e["kind"] == "read-after-revert":
+            acc["reads_after_that_revert"] += 1
+
+
 def toy_histories(run: Run, n_hist):
     sessions, metas = [], []
+    f1 = dict(histories_with_unforked_assignment_over_pending_fork=0, histories_with_revert_after_it=0,
+              histories_with_read_after_that_revert=0, reads_after_that_revert=0, revert_outcomes={})
     for h in range(n_hist):
         rng = run.rng("toy", h)
         malformed = rng.random() < 0.3
         G = T.gen_graph(rng)
+        G.nonfinite = G.dtype == "float64" and rng.random() < 0.5   # +-inf among the assigned values (NaN follows from inf - inf)
         try:
             G.build()
         except Exception as e:  # a generated graph leaspy refuses: not a case
             run.count("graph", f"refused:{type(e).__name__}")
             continue
-        s = T.gen_history(rng, G, malformed=malformed)
+        s = T.gen_history(rng, G, malformed=malformed, fx=FX)
         ops = [r[0] for r in s.records]
+        count_f1_shape(run, s, f1)
+        run.count("values", "float64 with +-inf/NaN" if G.nonfinite else G.dtype + " finite")
+        if s.nonfinite_masks:
+            run.count("partial_reverts_over_nonfinite_cached_values", "histories")
+            run.count("partial_reverts_over_nonfinite_cached_values", "reverts", s.nonfinite_masks)
         sessions.append(s)
         metas.append(dict(stream="malformed" if malformed else "valid", case=h))
         run.case(("toy", json.dumps(G.to_json(), sort_keys=True), json.dumps(ops)), nontrivial=T.nontrivial(ops))
@@ -122,20 +223,72 @@ def toy_histories(run: Run, n_hist):
         classify(run, G, s)
         if h in (3, 11):
             run.sample(dict(kind="toy", graph=G.to_json(), history=[dict(op=r[0], out=r[1], disciplined=r[2]) for r in s.records[:25]]))
+    f1["note"] = ("legal since 27ac519: the revert must be refused with the input error 'no fork to revert from' (err:input) and every "
+                  "later read must be fresh; before 27ac519 the revert succeeded (done) and restored a stale undo log")
+    run.extra["f1_shaped_toy_histories"] = f1
+    if FX == CLAIMED_FX and f1["histories_with_read_after_that_revert"] < max(5, n_hist // 100):
+        run.broken("generator:f1-shape", f"the toy-history generator produced too few histories of the F1 shape: {f1}", kind="broken-correspondence")
     correspond(run, "toy", sessions, metas)
 
 
 def directed(run: Run):
-    """The witness of F1 on the real State, and the unit-test usage."""
+    """The history of the former finding F1 on the real State: c = a + b; fork REF; a=1, b=10; read c; a=2; auto_fork_type=None;
+    b=20; revert(); read c.  Since 27ac519: the revert is refused and the read is 22.  Before: the revert restores a=1 and the
+    cached c=11 although b=20 (fresh: 21) — reported by the oracle under F1_SIG (a violation: the finding is listed as fixed)."""
     G = T.F1_GRAPH
     G.build()
     s = T.run_ops(G, T.F1_OPS, fx=FX)
     run.case(("directed", "F1"), nontrivial=True)
-    last = s.records[-1][1]
-    run.extra["F1_witness_read"] = last
+    revert_out, last = s.records[-2][1], s.records[-1][1]
+    run.extra["F1_history_on_this_tree"] = dict(ops=T.F1_OPS, revert=revert_out, last_read=last,
+                                                since_27ac519=dict(revert=["err", "input"], last_read=["ok", 22]),
+                                                before_27ac519=dict(revert=["done"], last_read=["ok", 11], fresh=21))
+    n0 = len(run._fails)
     classify(run, G, s)
+    if FX != CLAIMED_FX and len(run._fails) == n0:
+        # fail closed: the tree was recognised as un-repaired but the history of F1 did not produce the stale read
+        run.broken("oracle:F1-history", f"un-repaired __setitem__ recognised but the F1 history read {last} after revert -> {revert_out}", kind="broken-correspondence")
     correspond(run, "f1", [s], [dict(stream="directed-F1", case=0)])
-    run.sample(dict(kind="F1 witness on the real State", ops=T.F1_OPS, last_read=last, fresh_value=21))
+    run.sample(dict(kind="history of the former finding F1 on the real State", ops=T.F1_OPS, revert=revert_out, last_read=last))
+
+
+def directed_nonfinite(run: Run):
+    """y = log2 x per individual; x = [1,2]; read y; x += [-2,2]; read y = [NaN,2]; reject individual 0; read y.  Since fe0cadd the
+    selection leaves y = [0,2] (fresh for x = [1,4]); before, the blend left y = [NaN,2] (finding F2 of C02, here a stale read).
+    Then every mask on that history and on an affine one with inf."""
+    G = T.F2_GRAPH
+    G.build()
+    s = T.run_ops(G, T.F2_OPS, fx=FX)
+    run.case(("directed", "F2"), nontrivial=True)
+    last = s.records[-1][1]
+    run.extra["F2_history_on_this_tree"] = dict(ops=T.F2_OPS, last_read=last, since_fe0cadd=["ok", [0, 2]], before_fe0cadd=["ok", ["nan", 2]])
+    n0 = len(run._fails)
+    classify(run, G, s)
+    if MIX != CLAIMED_MIX and len(run._fails) == n0:
+        run.broken("oracle:F2-history", f"blending State.revert recognised but the F2 history read {last}", kind="broken-correspondence")
+    sessions, metas = [s], [dict(stream="directed-F2", case=0)]
+    G2 = T.ToyGraph([dict(name="x", kind="ind", parents=[]), dict(name="p", kind="pop", parents=[]),
+                     dict(name="c", kind="linked", parents=["x", "p"], fun=["affine", 1, [2, -3]]),
+                     dict(name="t", kind="linked", parents=["c"], fun=["sum", 0, [1]])], 2, "float64")
+    G2.build()
+    for mask in ([True, False], [False, True], [True, True], [False, False]):
+        for tgt in (["inf", 3], [4, "-inf"], ["inf", "-inf"]):
+            ops = [["mode", 0, "COPY"], ["set", 0, "p", 1], ["set", 0, "x", [1, 2]], ["get", 0, "c"], ["set", 0, "x", tgt], ["get", 0, "c"],
+                   ["revmask", 0, mask], ["get", 0, "c"], ["get", 0, "t"]]
+            s2 = T.run_ops(G2, ops, fx=FX)
+            run.case(("directed", "inf", tuple(mask), tuple(tgt)), nontrivial=True)
+            classify(run, G2, s2)
+            sessions.append(s2)
+            metas.append(dict(stream="directed-inf", case=len(sessions)))
+        for tgt in ([-1, 4], [0, 8], [4, -2]):
+            ops = T.F2_OPS[:3] + [["set", 0, "x", tgt], ["get", 0, "y"], ["revmask", 0, mask], ["get", 0, "y"]]
+            s2 = T.run_ops(G, ops, fx=FX)
+            run.case(("directed", "log", tuple(mask), tuple(tgt)), nontrivial=True)
+            classify(run, G, s2)
+            sessions.append(s2)
+            metas.append(dict(stream="directed-log", case=len(sessions)))
+    correspond(run, "nonfinite", sessions, metas)
+    run.sample(dict(kind="partial revert over a NaN discarded side on the real State", ops=T.F2_OPS, last_read=last))
 
 
 def exhaustive_diamond(run: Run, max_len):
@@ -256,11 +409,14 @@ def main(run: Run):
     run.prove("C01", OBLIGATIONS)
     from harness.common import use_impl
     use_impl()
+    settle_variant(run)
     run.rule = ("random toy DAGs (2-9 nodes: hyper-parameters, population scalars, per-individual vectors, integer affine / "
                 "sum-over-individuals nodes with distinct coefficients, int64 or float64) built as real LinkedVariables; random "
                 "histories (1-40 ops, 1-3 states) from a grammar with a valid stream (70%: initial assignments, reads, sampler-shaped "
                 "put/read/revert steps, clones, mode switches, precompute) and a malformed stream (30%: unset reads, unknown names, "
-                "non-settable assignments, reverts without fork, bad indices), every result + a final is_variable_set sweep over all "
+                "non-settable assignments, reverts without fork, bad indices); 3.5% of the steps taken while a fork is pending have the "
+                "shape of the former finding F1 (auto-fork off, assignment, reads, full or partial revert, reads; counted in "
+                "f1_shaped_toy_histories); every result + a final is_variable_set sweep over all "
                 "nodes compared with the model inside Coq; from-scratch oracle after every operation. Non-trivial = the history has a "
                 "read after a second assignment to the same state, after a revert or after a clone; distinct by (graph, history).")
     run.explanation = ("The theorems quantify over all graphs/histories/value types of the model; the tie runs the model's own step "
@@ -270,12 +426,18 @@ def main(run: Run):
     run.assumptions += [
         "WF g: ancestors/children delivered by dag.py are the transitive closures in topological order (C15); recomputed by wf_b on every graph of the tie",
         "F_mix: node functions of per-individual nodes act row by row (C07); only used for histories containing a partial revert",
-        "Disciplined: partial reverts only while every doubly cached node of the forked sub-graph carries the individual axis (documented precondition)",
-        f"model flag clear_fork_on_unforked_set = {FX} (the code as it is)" if not FX else "model flag clear_fork_on_unforked_set = True (repaired code)",
+        "MaskDisciplined: partial reverts only while every doubly cached node of the forked sub-graph carries the individual axis (documented precondition); no other restriction on histories",
+        "State.revert(subset) selects with torch.where (Coq instance xsem_where of the tie and of the examples): "
+        + ("recognised on the tree under test (source shape + probes)" if MIX == CLAIMED_MIX else
+           "NOT the case on the tree under test — tie made against xsem (blend)"),
+        "State.__setitem__ drops _last_fork on an assignment made with auto_fork_type=None (model flag fx = true, State/StateNow.v): "
+        + ("recognised on the tree under test (source shape + probes)" if FX == CLAIMED_FX else
+           "NOT the case on the tree under test — tie made against fx = false, the theorems do not apply"),
     ]
     run.trusted += ["harness/props/state_toy.py: toy-graph builder, executor and canonicalisation of results (exact integers / inf / nan)",
                     "torch element-wise kernels, index_put, deepcopy (modelled, not verified)"]
     directed(run)
+    directed_nonfinite(run)
     toy_histories(run, 6000 if thorough else 1500)
     if thorough:
         exhaustive_diamond(run, 3)
@@ -297,6 +459,9 @@ def replay(run: Run, path: str):
     if "graph" not in inp:
         print("replay: no toy history recorded in this file (broken obligation or shipped-model history); re-running the check")
         return main(run)
+    fx, mix = settle_variant(run)
+    print(f"State.__setitem__ of this tree: {run.extra['setitem_variant']}")
+    print(f"State.revert(subset) of this tree: {run.extra['revert_mix_variant']}")
     G = T.ToyGraph.from_json(inp["graph"])
     G.build()
     s = T.run_ops(G, inp["ops"], fx=FX)
@@ -305,7 +470,12 @@ def replay(run: Run, path: str):
     bad = [m for m in s.mismatches if "mask" not in m["taint"]]
     for m in bad[:3]:
         print(f"STALE after step {m['step']}: state {m['state']} node {m['node']}: read {m['observed']} but a fresh state gives {m['expected']}")
-    r = run.vm_bad_indices("replay", HEADER, CASE_TYPE, [s.coq_case()], f"(check_case {'true' if FX else 'false'})")
-    print("model agrees with the implementation on this history:", r == [])
-    print("REPLAY", "FAILS" if (bad or r) else "passes")
-    return 1 if (bad or r) else 0
+    r = run.vm_bad_indices("replay", HEADER, CASE_TYPE, [s.coq_case()], checker())
+    print(f"model (fx = {'true' if FX else 'false'}, {SEM[MIX]}) agrees with the implementation on this history:", r == [])
+    if fx != CLAIMED_FX:
+        print("the theorems of Props/C01.v are about fx = true: they do not speak about this tree")
+    if mix != CLAIMED_MIX:
+        print("the tie of Props/C01.v is made with xsem_where: this tree does not select in State.revert(subset)")
+    wrong = bool(bad or r or fx != CLAIMED_FX or mix != CLAIMED_MIX)
+    print("REPLAY", "FAILS" if wrong else "passes")
+    return 1 if wrong else 0
